@@ -312,6 +312,27 @@ func simplifyUnder(t *Term, assume *Facts) *Term {
 			if a.Key() == b.Key() {
 				return a
 			}
+			// ite(n % b == 0, n/b, 1 + n/b)  ==>  ceildiv(n, b)   for n >= 0, b >= 1
+			if (c.Kind == CEQ0 || c.Kind == CNE0) && len(c.P.m) == 1 {
+				for _, mo := range c.P.m {
+					if len(mo.factors) == 1 && mo.factors[0].Op == OpRem {
+						rm := mo.factors[0]
+						n, d := normInt(rm.Args[0]), normInt(rm.Args[1])
+						q := polyAtom(canon(&Term{Op: OpDiv, Typ: intT, Args: []*Term{rm.Args[0], rm.Args[1]}}))
+						exactBr, upBr := a, b
+						if c.Kind == CNE0 {
+							exactBr, upBr = b, a
+						}
+						// 1 + n/d may already have been read as ceildiv(n+1, d)
+						upOK := isIntLike(upBr.Typ) && (normInt(upBr).Equal(q.AddInt(1)) ||
+							(upBr.Op == OpCeilDiv && normInt(upBr.Args[0]).Equal(n.AddInt(1)) && normInt(upBr.Args[1]).Equal(d)))
+						if isIntLike(exactBr.Typ) && upOK && normInt(exactBr).Equal(q) &&
+							f.impliesGE0(n) && f.impliesGE0(d.AddInt(-1)) {
+							return &Term{Op: OpCeilDiv, Typ: intT, Args: []*Term{n.toTerm(), d.toTerm()}}
+						}
+					}
+				}
+			}
 			return &Term{Op: OpIte, Typ: a.Typ, Args: []*Term{c.Term(), a, b}}
 		}
 		args := make([]*Term, len(x.Args))
@@ -328,6 +349,22 @@ func simplifyUnder(t *Term, assume *Facts) *Term {
 			c.Args = args
 			c.key = ""
 			y = &c
+		}
+		// min/max decided by the facts
+		if (y.Op == OpMin || y.Op == OpMax) && len(y.Args) == 2 && isIntLike(y.Typ) {
+			a, b := normInt(y.Args[0]), normInt(y.Args[1])
+			switch {
+			case f.impliesGE0(b.Sub(a)): // a <= b
+				if y.Op == OpMin {
+					return y.Args[0]
+				}
+				return y.Args[1]
+			case f.impliesGE0(a.Sub(b)): // b <= a
+				if y.Op == OpMin {
+					return y.Args[1]
+				}
+				return y.Args[0]
+			}
 		}
 		// 1 + (n-1)/b  ==>  ceildiv(n, b)   for n >= 1, b >= 1
 		if isIntLike(y.Typ) && (y.Op == OpAdd || y.Op == OpSub) {
@@ -355,4 +392,55 @@ func eqUnder(a, b *Term, assume *Facts) bool {
 		return false
 	}
 	return eqCanon(simplifyUnder(a, assume), simplifyUnder(b, assume))
+}
+
+// simplifyFacts rewrites the polynomials of the facts under the assumptions (so that, e.g., the zero-channel
+// guard inside an opaque Length term disappears from the facts as it does from the terms they are compared with).
+func simplifyFacts(f *Facts, assume *Facts) *Facts {
+	out := assume.clone()
+	for _, c := range f.list {
+		if c.P == nil {
+			out.add(c)
+			continue
+		}
+		np := newPoly()
+		for _, mo := range c.P.m {
+			term := polyConst(mo.coef)
+			for _, fac := range mo.factors {
+				term = term.Mul(normInt(simplifyUnder(fac, assume)))
+			}
+			np = np.Add(term)
+		}
+		nc := c
+		nc.P = np
+		if c.Kind == CEQ0 || c.Kind == CNE0 {
+			nc.P = normSign(np)
+		}
+		out.add(nc)
+	}
+	return out
+}
+
+// withZeroAtoms adds x == 0 for every opaque factor of the facts that is zero under them (e.g. a Length
+// term of a zero-length buffer), so that bounds stated against such a factor become usable.
+func withZeroAtoms(f *Facts) *Facts {
+	out := f.clone()
+	seen := map[string]bool{}
+	for _, c := range f.list {
+		if c.P == nil {
+			continue
+		}
+		for _, mo := range c.P.m {
+			for _, fac := range mo.factors {
+				if seen[fac.Key()] || fac.Op == OpAtom || !isIntLike(fac.Typ) {
+					continue
+				}
+				seen[fac.Key()] = true
+				if isZeroUnder(f, fac, 0) {
+					out.add(Cond{Kind: CEQ0, P: normSign(polyAtom(fac))})
+				}
+			}
+		}
+	}
+	return out
 }
